@@ -317,6 +317,11 @@ def bounded(tier, seed, R):
     # MOD: exact arithmetic on the binary values
     pairs = [(1.7, 0.1), (6.3, 2.1), (-1.7, -0.1), (10, 4), (-10, 4), (10, -4), (2.2, 1), (2, 1.1), (5.5, 0.5),
              (10 ** 17 + 1, 7), (1e-9, 3), (7, 7), (0, 5), (0.3, 0.1), (-0.3, 0.1), (1e15, 0.7)]
+    # exact multiples and near-multiples on a dyadic grid (exact in binary), all four sign combinations
+    for d_ in (0.25, 0.5, 1.5, 2.5, 1.0, 3.0):
+        for k_ in range(-6, 7):
+            for sgn in (1, -1):
+                pairs += [(k_ * d_, sgn * d_), (k_ * d_ + 0.125, sgn * d_), (float(k_), sgn * d_), (k_, sgn * d_)]
     pairs += [(rnd.randint(-10 ** 6, 10 ** 6) / 100, rnd.randint(1, 10 ** 4) / 100 * rnd.choice((1, -1)))
               for _ in range(300 if not thorough else 20000)]
     for n, d in pairs:
